@@ -52,6 +52,33 @@ func capacityScenarios(rep *rt.Report) {
 			}
 		}
 	}
+	// EVERY number of blocks holding the key below the capacity (2..198 entries): b1:k=1 <- b2:k=2, the rest are
+	// siblings of b2 writing k; the oldest writer is re-read, k is looked up at a block hanging off a sibling (one
+	// memoised entry more), then at a fresh child of b2 - where the value of b2 must be found. The history creates
+	// at most 200 entries for k: nothing may be evicted at any size, also not at a size where a container grows.
+	for n := 2; n <= 198; n++ {
+		sc := statecache.NewStateCache()
+		commit(sc, "b1", "b0", map[string]string{"k": "1"})
+		commit(sc, "b2", "b1", map[string]string{"k": "2"})
+		for i := 0; i < n-2; i++ {
+			commit(sc, fmt.Sprintf("s%d", i), "b1", map[string]string{"k": fmt.Sprintf("s%d", i)})
+		}
+		forkParent, forkWant := "b1", "1"
+		if n > 2 {
+			forkParent, forkWant = "s0", "s0"
+		}
+		commit(sc, "t", forkParent, map[string]string{"j": "x"})
+		commit(sc, "c", "b2", map[string]string{"j": "y"})
+		rep.Add("capacity_scenarios", 1)
+		name := fmt.Sprintf("b1:k=1 <- b2:k=2, %d sibling blocks of b2 writing k (%d entries for k, capacity 200), t on %s and c on b2 not touching k; Get(k,b1), Get(k,t), Get(k,c)", n-2, n, forkParent)
+		for _, q := range [][2]string{{"b1", "1"}, {"t", forkWant}, {"c", "2"}, {"b2", "2"}, {"c", "2"}} {
+			if v, ok := sc.Get("k", q[0]); ok && render(v) != q[1] {
+				rep.Violate(fmt.Sprintf("%s: Get(k,%s) returned %s; the value on that block's chain is %s", name, q[0], render(v), q[1]), map[string]any{"scenario": name})
+				n = 1 << 20
+				break
+			}
+		}
+	}
 	// deep walks below the capacity: W consecutive blocks rewrite k, H more blocks do not touch it; an old
 	// writer X is re-read (its entry becomes the most recently used), then k is looked up at the tip (a walk
 	// over H blocks). The history creates W entries for k plus one memoised entry per lookup at a non-writer,
@@ -218,7 +245,8 @@ func depthScenarios(rep *rt.Report, kinds []int, removal bool) {
 // manyKeysScenario: ONE block that writes / removes a large number of distinct keys (70000, far above any
 // small bound inside the block cache) over a parent that holds an older value for every one of them; every
 // key is looked up through the open block, after the block's commit, and from a child block.
-func manyKeysScenario(rep *rt.Report, nKeys int) {
+// txnSize is the number of writes per transaction (0: all of them in ONE transaction).
+func manyKeysScenario(rep *rt.Report, nKeys, txnSize int) {
 	sc := statecache.NewStateCache()
 	parent := statecache.NewBlockCache(sc, statecache.Block{Hash: "p", PrevHash: "p-root"})
 	ptc := statecache.NewTransactionCache(parent)
@@ -242,14 +270,29 @@ func manyKeysScenario(rep *rt.Report, nKeys int) {
 		} else {
 			tc.Set(key(i), statecache.String(fmt.Sprintf("new-%d", i)))
 		}
-		if i%1000 == 999 {
-			tc.Commit() // transactions of 1000 writes each
+		if txnSize > 0 && i%txnSize == txnSize-1 {
+			tc.Commit() // transactions of txnSize writes each
 			tc = statecache.NewTransactionCache(bc)
+		}
+		if txnSize == 0 && (i == nKeys/2 || i == nKeys-1) {
+			// the one big transaction reads its own pending writes while it grows
+			for _, j := range []int{0, 1, i / 2, i - 1, i} {
+				v, ok := tc.Get(key(j))
+				w := wantOf(j)
+				if (!ok && w != mustMiss) || (ok && (w == mustMiss || render(v) != w)) {
+					got := "a miss"
+					if ok {
+						got = render(v)
+					}
+					rep.Violate(fmt.Sprintf("one transaction with %d pending writes over a parent holding an older value for each: its own lookup of key %d returned %s; its own write is %s", i+1, j, got, showTruth(w)), map[string]any{"scenario": "many-keys-one-txn", "keys": nKeys})
+					return
+				}
+			}
 		}
 	}
 	tc.Commit()
 	rep.Add("capacity_scenarios", 1)
-	desc := fmt.Sprintf("one block writing/removing %d distinct keys over a parent holding an older value for each", nKeys)
+	desc := fmt.Sprintf("one block writing/removing %d distinct keys (transactions of %d writes, 0 = one transaction) over a parent holding an older value for each", nKeys, txnSize)
 	check := func(stage string, get func(k string) (statecache.Value, bool), mustHit bool) bool {
 		for i := 0; i < nKeys; i++ {
 			v, ok := get(key(i))
